@@ -5,6 +5,7 @@ import (
 	"fmt"
 	"math/rand"
 	"sort"
+	"sync"
 )
 
 // Universe maps real keys / values / collection names to the integer ids the
@@ -18,6 +19,7 @@ type Universe struct {
 	valLen []int // by id (1-based: valLen[0] unused)
 	vals   [][]byte
 	ctr    int
+	mu     sync.Mutex // the interning tables are shared by goroutines in concurrent drivers
 }
 
 // name ids are 1-based ranks in sorted order.  Names starting with 'r' use
@@ -121,9 +123,12 @@ var magicEnd = []byte("3e4a5p")
 
 // NewValue makes a fresh value (distinct from all earlier ones) and interns it.
 func (u *Universe) NewValue(rng *rand.Rand, big bool, rootFragment []byte) ([]byte, int) {
+	u.mu.Lock()
 	u.ctr++
+	ctr := u.ctr
+	u.mu.Unlock()
 	var b []byte
-	tag := []byte(fmt.Sprintf("v%d|", u.ctr))
+	tag := []byte(fmt.Sprintf("v%d|", ctr))
 	switch r := rng.Intn(20); {
 	case r == 0:
 		b = tag[:0] // may collide with another empty value: interned to the same id
@@ -166,6 +171,8 @@ func (u *Universe) ValID(v []byte, intern bool) int {
 	if v == nil {
 		return -1
 	}
+	u.mu.Lock()
+	defer u.mu.Unlock()
 	if id, ok := u.valID[string(v)]; ok {
 		return id
 	}
